@@ -274,6 +274,7 @@ def stepC08 (_ : Unit) (line : String) : Unit × String :=
     | "lit" => doLit f
     | "heap" => doHeap arg
     | "rich" => "rich"
+    | "rej" => "rej"
     | _ => "bad-op")
 
 def main : IO Unit := run () stepC08
